@@ -599,6 +599,8 @@ def random_combo(rng):
         vals = [(cc, v) for (cc, v, cls) in param_values(rng, k, npt) if cls == "valid" and cc != "none"]
         cc, v = vals[int(rng.integers(len(vals)))]
         up.append([k, enc(v)])
+    if any(k == "dykstra.d_tol" and dec(v) == 0.0 for k, v in up) and not any(k == "dykstra.max_iters" for k, v in up):
+        up.append(["dykstra.max_iters", enc(5)])      # see with_param: tol = 0 is slow, not divergent
     c["up"] = up
     c["tag"] = "combo:" + "+".join(sorted(ks))
     c["expect"] = "invalid" if contradictory(c, npt) else "valid"
